@@ -71,3 +71,14 @@
 (define-fun pbDeleteKind ((wholeFamily Bool) (oneVersion Bool)) Int (ite wholeFamily (ite oneVersion 3 2) (ite oneVersion 0 1)))
 (define-fun kvTypeOfMutation ((isDelete Bool) (wholeFamily Bool) (oneVersion Bool)) Int
   (ite isDelete (kvTypeOfPbDelete (pbDeleteKind wholeFamily oneVersion)) 4))
+
+;;; block backoff
+; the back-off schedule of C17, in nanoseconds: 16 ms doubling while below 5 s, then +5 s while below 30 s, then constant
+(define-fun sched ((n Int)) Int
+  (ite (<= n 0) 16000000 (ite (= n 1) 32000000 (ite (= n 2) 64000000 (ite (= n 3) 128000000 (ite (= n 4) 256000000
+  (ite (= n 5) 512000000 (ite (= n 6) 1024000000 (ite (= n 7) 2048000000 (ite (= n 8) 4096000000 (ite (= n 9) 8192000000
+  (ite (= n 10) 13192000000 (ite (= n 11) 18192000000 (ite (= n 12) 23192000000 (ite (= n 13) 28192000000 33192000000)))))))))))))))
+(define-fun schedNext ((b Int)) Int (ite (< b 5000000000) (* 2 b) (ite (< b 30000000000) (+ b 5000000000) b)))
+(define-fun onSched ((b Int)) Bool
+  (or (= b 16000000) (= b 32000000) (= b 64000000) (= b 128000000) (= b 256000000) (= b 512000000) (= b 1024000000) (= b 2048000000)
+      (= b 4096000000) (= b 8192000000) (= b 13192000000) (= b 18192000000) (= b 23192000000) (= b 28192000000) (= b 33192000000)))
